@@ -102,3 +102,83 @@ proof fn lemma_dby_bounds(y: int)
         -784353015833 <= dby(y) <= 784351576777,
 {
 }
+
+// the two truncating-division formulas of days_since_unix_epoch against the floor closed form
+proof fn lemma_dsue(y: int)
+    ensures
+        y >= 1970 ==> tdiv(y - 1968, 4) == (y - 1) / 4 - 492 + (if y % 4 == 0 { 1int } else { 0 })
+            && tdiv(y - 1900, 100) == (y - 1) / 100 - 19 + (if y % 100 == 0 { 1int } else { 0 })
+            && tdiv(y - 1600, 400) == (y - 1) / 400 - 4 + (if y % 400 == 0 { 1int } else { 0 }),
+        y < 1970 ==> tdiv(y - 1972, 4) == (y - 1) / 4 - 492
+            && tdiv(y - 2000, 100) == (y - 1) / 100 - 19
+            && tdiv(y - 2000, 400) == (y - 1) / 400 - 4,
+        y % 400 == 0 ==> y % 100 == 0,
+        y % 100 == 0 ==> y % 4 == 0,
+{
+}
+
+// the 100/4/1-year cascade with its clamps, on the day number inside a 400-year cycle
+proof fn lemma_cascade(rd0: int)
+    requires
+        0 <= rd0 < 146097,
+    ensures
+        ({
+            let b = imin(rd0 / 36524, 3);
+            let rd1 = rd0 - b * 36524;
+            let c = imin(rd1 / 1461, 24);
+            let rd2 = rd1 - c * 1461;
+            let e = imin(rd2 / 365, 3);
+            let rd3 = rd2 - e * 365;
+            &&& 0 <= b <= 3
+            &&& 0 <= c <= 24
+            &&& 0 <= e <= 3
+            &&& 0 <= rd1
+            &&& 0 <= rd2
+            &&& 0 <= rd3 < 365 + (if e == 3 && (c != 24 || b == 3) { 1int } else { 0 })
+        }),
+{
+}
+
+proof fn lemma_hms(sod: int)
+    requires
+        0 <= sod < 86400,
+    ensures
+        0 <= sod / 3600 < 24,
+        0 <= (sod / 60) % 60 < 60,
+        0 <= sod % 60 < 60,
+        (sod / 3600) * 3600 + ((sod / 60) % 60) * 60 + sod % 60 == sod,
+{
+}
+
+// last step of the Unix-time -> calendar direction: fields of the day + second-of-day give back the
+// instant, and the year fits an i32 exactly when the instant is in the supported range
+proof fn lemma_from_timespec_final(y: int, m: int, d: int, sod: int, dn: int, t: int)
+    requires
+        valid_date(y, m, d),
+        days_civil(y, m, d) == dn,
+        0 <= sod < 86400,
+        t == dn * 86400 + sod,
+    ensures
+        0 <= sod / 3600 < 24,
+        0 <= (sod / 60) % 60 < 60,
+        0 <= sod % 60 < 60,
+        secs(y, m, d, sod / 3600, (sod / 60) % 60, sod % 60) == t,
+        (-2147483648 <= y <= 2147483647) <==> (utc_min() <= t <= utc_max()),
+{
+    lemma_hms(sod);
+    let h = sod / 3600;
+    let mi = (sod / 60) % 60;
+    let s = sod % 60;
+    assert(secs(y, m, d, h, mi, s) == dn * 86400 + (h * 3600 + mi * 60 + s));
+    lemma_secs_in_year(y, m, d, h, mi, s);
+    if y > 2147483647 {
+        lemma_dby_mono(2147483648, y);
+    }
+    if y < -2147483648 {
+        lemma_dby_mono(y + 1, -2147483648);
+    }
+    if -2147483648 <= y <= 2147483647 {
+        lemma_dby_mono(-2147483648, y);
+        lemma_dby_mono(y + 1, 2147483648);
+    }
+}
